@@ -41,6 +41,24 @@ pub fn build(t: &mut std::slice::Iter<&str>, bounds: &mut Vec<String>) -> Result
                     let a = Attachment::new_inline(s(a1)?);
                     if is_string { a.body(String::from_utf8(content).map_err(|_| "invalid-utf8")?, ct) } else { a.body(content, ct) }
                 }
+                "pre" => {
+                    // a2 = "<builder CTE or !>,<body CTE or !>": a pre-encoded Body handed to the builder
+                    let ct = ContentType::parse(&s(a1)?).map_err(|e| format!("ctype: {e}"))?;
+                    let spec = s(a2)?;
+                    let (h, be) = spec.split_once(',').ok_or("pre spec")?;
+                    let cte = |n: &str| match n { "7bit" => Cte::SevenBit, "8bit" => Cte::EightBit, "quoted-printable" => Cte::QuotedPrintable, "base64" => Cte::Base64, _ => Cte::Binary };
+                    let mut b = SinglePart::builder().header(ct);
+                    if h != "!" { b = b.header(cte(h)); }
+                    use lettre::message::Body;
+                    let body = if be == "!" {
+                        if is_string { Body::new(String::from_utf8(content).map_err(|_| "invalid-utf8")?) } else { Body::new(content) }
+                    } else if is_string {
+                        Body::new_with_encoding(String::from_utf8(content).map_err(|_| "invalid-utf8")?, cte(be)).map_err(|_| "body-refused")?
+                    } else {
+                        Body::new_with_encoding(content, cte(be)).map_err(|_| "body-refused")?
+                    };
+                    b.body(body)
+                }
                 _ => {
                     let ct = ContentType::parse(&s(a1)?).map_err(|e| format!("ctype: {e}"))?;
                     let mut b = SinglePart::builder().header(ct);
